@@ -7,5 +7,6 @@ SCR=/tmp/mutant-$$; rm -rf $SCR; mkdir -p $SCR; (cd /repo && git archive HEAD) |
 (cd $SCR && python3 $ED) || { echo "edit failed"; rm -rf $SCR; exit 2; }
 suite=$(cd $SCR && GOFLAGS= GOPROXY=off GOSUMDB=off GOTOOLCHAIN=local go test -vet=off -count=1 ./... 2>&1 | grep -v "^ok\|no test files" | head -3)
 echo "suite failures: [$suite]"
-for P in "$@"; do echo "$P: $(cd /verif && VERIF_REPO=$SCR ./check $P 2>/dev/null | tail -1)"; done
+HERE=$(cd $(dirname $0)/.. && pwd)
+for P in "$@"; do echo "$P: $(cd $HERE && VERIF_REPO=$SCR ./check $P 2>/dev/null | tail -1)"; done
 rm -rf $SCR
